@@ -523,10 +523,17 @@ func ruleGuards(c *Ctx) {
 						if a, _, ok := rootAlloc(st.Addr); ok && !a.Heap {
 							uses = nil
 							for _, ar := range *a.Referrers() {
-								if fa, ok := ar.(*ssa.FieldAddr); ok {
+								switch fa := ar.(type) {
+								case *ssa.FieldAddr:
 									for _, r2 := range *fa.Referrers() {
 										uses = append(uses, r2)
 									}
+								case *ssa.IndexAddr: // array-typed pattern kept in a local
+									for _, r2 := range *fa.Referrers() {
+										uses = append(uses, r2)
+									}
+								case *ssa.UnOp:
+									uses = append(uses, fa)
 								}
 							}
 						}
